@@ -73,6 +73,10 @@ type WorkerResult struct {
 	Scheds []uint64 `json:"scheds,omitempty"`
 	// SkipReasons counts abandoned runs by reason class.
 	SkipReasons map[string]int `json:"skip_reasons,omitempty"`
+	// Sites are the go-cose yield sites passed (instrumented builds);
+	// NumSites the number of sites there are.
+	Sites    []int `json:"sites,omitempty"`
+	NumSites int   `json:"num_sites,omitempty"`
 }
 
 // Prefixes maps a property to the function that forces the leading choices of
@@ -211,6 +215,7 @@ func RunBatch(prop, tier string, seed uint64, start, count int, known map[string
 	if logTo != nil {
 		res.LogHash = hex.EncodeToString(logHash.Sum(nil))
 	}
+	res.Sites, res.NumSites = SitesHit(), NumSites()
 	if n := LibSteps(); n > 0 {
 		res.Extra = map[string]int{"go-cose statements executed (yield points passed)": int(n)}
 	}
